@@ -2364,3 +2364,27 @@ def bitmask_algebra_rule(index, rep, rid, modules):
                     rep.check(False, rid, fi.qualname, "bitmasks combined arithmetically: `%s`" % bad[:60], fn_where(fi, x), "",
                               "%s computes `%s`: a bitmask is a set of taxa and is combined with | (union), & and ^; addition gives the union only while no bit occurs twice, so a taxon named twice - or two groups that overlap - carries into the neighbouring taxon's bit and the mask describes a different set of taxa" % (fi.qualname, bad[:80]))
     return n
+
+
+def parent_deref_rule(index, rep, rid, modules):
+    """a parent is dereferenced only where it is known to exist: `<x>._parent_node.<member>` / `.parent_node.` /
+    `.tail_node.` is dominated by a test that mentions that parent expression - for the seed node of a tree (in
+    particular of a single-node tree) the parent is None."""
+    PAR = ("_parent_node", "parent_node", "tail_node")
+    n = 0
+    for m in modules:
+        for f in index.functions_in_module(m):
+            g = None
+            for x in walk_no_nested(f.node):
+                if not (isinstance(x, ast.Attribute) and isinstance(x.value, ast.Attribute) and x.value.attr in PAR and isinstance(x.ctx, ast.Load)):
+                    continue
+                g = g or cfg_of(f)
+                base = norm(x.value)
+                nds = [n_ for n_ in g.nodes if any(x is y for e in node_exprs(n_) for y in ast.walk(e))]
+                if not nds:
+                    continue
+                n += 1
+                ok = g.dominated_by(nds[0], lambda n_: n_.kind == "test" and base in norm(n_.ast), follow_exc=False)
+                rep.check(ok, rid, f.qualname, "`%s` dereferenced without a test" % base, fn_where(f, x), "%s: `%s` follows a test on `%s`" % (f.qualname, norm(x)[:40], base),
+                          "%s evaluates `%s` without ever testing `%s`: for the seed node that is None, so a tree that consists of its seed node alone (or the root of any tree, where the function is reached for it) ends in AttributeError: 'NoneType' object has no attribute '%s' instead of being written / handled" % (f.qualname, norm(x)[:50], base, x.attr))
+    return n
